@@ -785,7 +785,7 @@ class Sandbox:
             # A student object whose __repr__ fails is passed as it is
             value_repr = None
         if (value_repr is not None and len(value_repr) <= self.MAXIMUM_TEMPORARY_LENGTH
-                and self._is_literal(value_repr)):
+                and self._is_literal(value_repr, value)):
             return value_repr
         key = '_temporary_{}_{}'.format(category, name)
         if key in self.data:
@@ -795,15 +795,19 @@ class Sandbox:
         return key
 
     @staticmethod
-    def _is_literal(value_repr):
+    def _is_literal(value_repr, value):
         """ Whether the given repr can be pasted into the call's source code
         and evaluate back to the value (not true for e.g. ``inf``, ``nan``
-        or arbitrary objects, which have to be passed as temporaries). """
+        or arbitrary objects, which have to be passed as temporaries - also
+        when their repr happens to look like a number or a string). """
         try:
-            ast.literal_eval(value_repr)
+            parsed = ast.literal_eval(value_repr)
         except (ValueError, SyntaxError, TypeError, MemoryError, RecursionError):
             return False
-        return True
+        try:
+            return type(parsed) is type(value) and bool(parsed == value)
+        except Exception:
+            return False
 
     def make_safe_variable(self, name):
         """
